@@ -128,31 +128,46 @@ Reduce(f, p, nums, alive) ==
            r  == ApplyUn(f.ops[idx].un, Bin(f.ops[idx].o, nums[n1], nums[n2]))
        IN Reduce(f, p + 1, [nums EXCEPT ![n1] = r], [alive EXCEPT ![n2] = FALSE])
 Eval(f) == Reduce(f, 1, [j \in 1..Len(f.nodes) |-> LeafVal(f.nodes[j])], [j \in 1..Len(f.nodes) |-> TRUE])
+\* the steps of eval_binary as the hook reports them: <<operator index, left operand slot, right operand slot>> (1-based)
+RECURSIVE ReduceSteps(_, _, _, _)
+ReduceSteps(f, p, alive, acc) ==
+  IF p > Len(f.prio) THEN acc
+  ELSE LET idx == f.prio[p]
+           n1 == CHOOSE j \in 1..idx : alive[j] /\ \A k \in (j + 1)..idx : ~alive[k]
+           n2 == CHOOSE j \in (idx + 1)..Len(alive) : alive[j] /\ \A k \in (idx + 1)..(j - 1) : ~alive[k]
+       IN ReduceSteps(f, p + 1, [alive EXCEPT ![n2] = FALSE], Append(acc, <<idx, n1, n2>>))
+EvalSteps(f) == ReduceSteps(f, 1, [j \in 1..Len(f.nodes) |-> TRUE], <<>>)
 
 \* ---- FlatEx::compile -------------------------------------------------------------------------------------
 RemoveAt(s, k) == SubSeq(s, 1, k - 1) \o SubSeq(s, k + 1, Len(s))
-RECURSIVE CompLoop(_, _, _, _, _, _)
-\* f: original expression; i: position in prio_indices; nodes: current nodes; inds: num_inds; dec: already_declined; used
-CompLoop(f, i, nodes, inds, dec, used) ==
-  IF i > Len(f.prio) THEN [nodes |-> nodes, used |-> used]
+RECURSIVE CompLoop(_, _, _, _, _, _, _)
+\* f: original expression; i: position in prio_indices; nodes: current nodes; inds: num_inds; dec: already_declined; used;
+\* tr: the decisions as the hook reports them: <<"fold" | "decline" | "skip", operator index, node index>> (1-based)
+CompLoop(f, i, nodes, inds, dec, used, tr) ==
+  IF i > Len(f.prio) THEN [nodes |-> nodes, used |-> used, tr |-> tr]
   ELSE LET b == f.prio[i]
            k == inds[i]
-       IN IF k + 1 > Len(nodes) \/ k < 1 THEN [nodes |-> nodes, used |-> used, panic |-> TRUE]
+       IN IF k + 1 > Len(nodes) \/ k < 1 THEN [nodes |-> nodes, used |-> used, tr |-> tr, panic |-> TRUE]
           ELSE IF nodes[k].kind = "num" /\ nodes[k + 1].kind = "num" /\ ~dec[k] /\ ~dec[k + 1]
           THEN LET r == ApplyUn(f.ops[b].un, Bin(f.ops[b].o, nodes[k].val, nodes[k + 1].val))
                IN CompLoop(f, i + 1,
                            RemoveAt([nodes EXCEPT ![k] = [kind |-> "num", val |-> r, un |-> <<>>]], k + 1),
                            [j \in 1..Len(inds) |-> IF inds[j] > k THEN inds[j] - 1 ELSE inds[j]],
-                           RemoveAt(dec, k + 1), used \cup {b})
-          ELSE CompLoop(f, i + 1, nodes, inds, [dec EXCEPT ![k] = TRUE, ![k + 1] = TRUE], used)
+                           RemoveAt(dec, k + 1), used \cup {b}, Append(tr, <<"fold", b, k>>))
+          ELSE CompLoop(f, i + 1, nodes, inds, [dec EXCEPT ![k] = TRUE, ![k + 1] = TRUE], used,
+                        Append(tr, <<IF nodes[k].kind = "num" /\ nodes[k + 1].kind = "num" THEN "decline" ELSE "skip", b, k>>))
 RECURSIVE Keep(_, _, _)
 Keep(ops, used, j) == IF j > Len(ops) THEN <<>> ELSE (IF j \in used THEN <<>> ELSE <<ops[j]>>) \o Keep(ops, used, j + 1)
 Compile(f) ==
   LET n0 == [j \in 1..Len(f.nodes) |->
                IF f.nodes[j].kind = "num" THEN [kind |-> "num", val |-> LeafVal(f.nodes[j]), un |-> <<>>] ELSE f.nodes[j]]
-      c  == CompLoop(f, 1, n0, f.prio, [j \in 1..Len(f.nodes) |-> FALSE], {})
+      c  == CompLoop(f, 1, n0, f.prio, [j \in 1..Len(f.nodes) |-> FALSE], {}, <<>>)
   IN IF "panic" \in DOMAIN c THEN [err |-> "panic-compile-index"]
      ELSE [err |-> "none"] @@ MkFlat(c.nodes, Keep(f.ops, c.used, 1))
+CompileSteps(f) ==
+  LET n0 == [j \in 1..Len(f.nodes) |->
+               IF f.nodes[j].kind = "num" THEN [kind |-> "num", val |-> LeafVal(f.nodes[j]), un |-> <<>>] ELSE f.nodes[j]]
+  IN CompLoop(f, 1, n0, f.prio, [j \in 1..Len(f.nodes) |-> FALSE], {}, <<>>).tr
 
 \* FlatEx::parse = parse_wo_compile + compile
 ParseFlat(T, toks, compile) ==
